@@ -207,7 +207,27 @@ class Liveness:
             if pc == self.param_consts:
                 break
             self.param_consts = pc
+        self._fold_ifexp()
         self._certain()
+
+    def _fold_ifexp(self):
+        """`A if <propagated constant> else B` is A (or B): folded in place, once per repository"""
+        if getattr(self.repo, "_ifexp_folded", False):
+            return
+        self.repo._ifexp_folded = True
+        lv = self
+
+        for fname, (rel, fn) in self.funcs.items():
+            env, dn = self.env_of(fname)
+
+            class F(ast.NodeTransformer):
+                def visit_IfExp(self, node):
+                    self.generic_visit(node)
+                    v = ev_const(node.test, env, dn, lv.lit)
+                    if v is UNKNOWN:
+                        return node
+                    return node.body if v else node.orelse
+            F().visit(fn)
 
     def _certain(self):
         """functions reachable from the entry points through calls that do not sit under a branch on an opaque value;
